@@ -155,3 +155,27 @@ Qed.
 (* non-vacuity: an unknown object (type 200, 24 bytes, the payload starts with the signature) is a well-formed unknown object *)
 Example ex_unknown : uobj_ok {| u_hsz := 32; u_hver := 7; u_osz := 24; u_type := 200; u_payload := [76; 79; 66; 74; 1; 2; 3; 4] |}.
 Proof. unfold uobj_ok. cbn [u_hsz u_hver u_osz u_type u_payload]. repeat split; try lia; try reflexivity. Qed.
+
+(* ---------- C08 + C09: a mixed stream cut inside a known object ---------- *)
+From VB Require Import PrefixRT PrefixEq.
+
+Theorem mixed_prefix_gen : forall pre o part lost fuel i acc count, Forall item_ok pre -> wobj_ok o ->
+  w_bytes o = part ++ lost -> lost <> [] ->
+  nstream i -> s_good i = true -> s_after i = concat (map item_bytes pre) ++ part -> (length pre + 1 < fuel)%nat ->
+  exists ds, fst (fst (OL fuel i acc count)) = acc ++ ds /\ (Forall2 same_obj (knowns pre) ds \/ Forall2 same_obj (knowns pre ++ [o]) ds).
+Proof.
+  induction pre as [|x r IH]; intros o part lost fuel i acc count Hall Ho Hb Hl Hi Hg Ha Hf.
+  - destruct fuel as [|[|fuel]]; [cbn in Hf; lia|cbn in Hf; lia|]. cbn [map concat app] in Ha.
+    destruct (cut_object o part lost fuel i acc count Ho Hb Hl Hi Hg Ha) as [E|(d & Hd & E)].
+    + exists []. split; [rewrite app_nil_r; exact E|left; constructor].
+    + exists [d]. split; [exact E|right; cbn [knowns flat_map app]; constructor; [exact Hd|constructor]].
+  - destruct fuel as [|fuel]; [cbn in Hf; lia|]. inversion Hall as [|? ? Hx Hr]; subst.
+    cbn [map concat] in Ha. rewrite <- app_assoc in Ha. destruct x as [p|u]; cbn [item_bytes item_ok] in *.
+    + destruct (obj_step p fuel i (concat (map item_bytes r) ++ part) acc count Hx Hi Hg Ha) as (d & i' & Hd & Hn' & Hg' & Ha' & Estep).
+      destruct (IH o part lost fuel i' (acc ++ [d]) (next_count p count) Hr Ho Hb Hl Hn' Hg' Ha') as (ds & E & Hds); [cbn [length] in Hf; lia|].
+      exists (d :: ds). split; [rewrite Estep, E, <- app_assoc; reflexivity|].
+      cbn [knowns flat_map app]. destruct Hds as [H|H]; [left|right]; constructor; assumption.
+    + destruct (unknown_step u fuel i (concat (map item_bytes r) ++ part) acc count Hx Hi Hg Ha) as (i' & Hn' & Hg' & Ha' & Estep).
+      destruct (IH o part lost fuel i' acc count Hr Ho Hb Hl Hn' Hg' Ha') as (ds & E & Hds); [cbn [length] in Hf; lia|].
+      exists ds. split; [rewrite Estep; exact E|]. cbn [knowns flat_map app]. exact Hds.
+Qed.
